@@ -10,6 +10,7 @@ import GqlModel.Ops.WireOps
     jsondec <json tree sexp>       → sexp (positions zero) of decodeQueryDoc j, or E,<error>
                                      (json tree: N | T | F | <int> | x<hex> | (A item…) | (O x<key> value …))
     jsonwf  <query document sexp>  → 1 / 0 : utf8CleanB d (the hypothesis of C19_roundtrip)
+    jsonsrcwf <hex source text>    → 1 / 0 : sourceCleanB (every token of the lexer model has a well-formed UTF-8 value)
     jsonlegacy <query document sexp> → jsonrt with the discriminator decode.go had before its repair (history)
 -/
 namespace Gql.Ops
@@ -72,10 +73,15 @@ def opJsonDec (args : List String) : String :=
       | .error e => "E," ++ e
 
 def opJsonWf (args : List String) : String := withQueryDoc args fun d => if utf8CleanB d then "1" else "0"
+def opJsonSrcWf : List String → String
+  | [h] => match fromHex h with
+    | some bs => if sourceCleanB bs then "1" else "0"
+    | none => "bad-hex"
+  | _ => "bad-args"
 def opJsonLegacy (args : List String) : String := withQueryDoc args (rtWith legacyDisc)
 
 def jsonOps : List (String × (List String → String)) :=
   [("jsonrt", opJsonRt), ("jsonrt2", opJsonRt2), ("jsonenc", opJsonEnc), ("jsonstr", opJsonStr), ("jsonsan", opJsonSan),
-   ("jsondec", opJsonDec), ("jsonwf", opJsonWf), ("jsonlegacy", opJsonLegacy)]
+   ("jsondec", opJsonDec), ("jsonwf", opJsonWf), ("jsonsrcwf", opJsonSrcWf), ("jsonlegacy", opJsonLegacy)]
 
 end Gql.Ops
